@@ -1,16 +1,18 @@
-SPECIFICATION SimSpec
+SPECIFICATION Spec
 CONSTANTS
-  MaxInst = 6
-  MaxWrappers = 5
-  MaxDepth = 24
-  MaxMarks = 4
-  EnableEmpty = FALSE
+  MaxInst = 2
+  MaxWrappers = 2
+  MaxDepth = 7
+  MaxMarks = 0
+  EnableEmpty = TRUE
 INVARIANT AtMostOnce
 INVARIANT OnlyViaOwner
 INVARIANT OneOwner
 INVARIANT OwnerIsPy
+INVARIANT EmptyOwnsNothing
 INVARIANT NoLeak
 INVARIANT FinalAccounting
 INVARIANT ConstRaises
-CONSTRAINT SimConstraint
+VIEW View
+CONSTRAINT EmptyDumpConstraint
 CHECK_DEADLOCK FALSE
